@@ -1,4 +1,5 @@
 import DclabModel.Lemmas.Summary
+import DclabModel.Lemmas.SummaryView
 /-!
 # C20 — Reported feature minima, maxima and means match the data
 
@@ -150,6 +151,235 @@ theorem child_stale_without_refresh :
     (childRun { parent := [fin 1, fin 2], mask := [true, true], arr := none, cache := none }
       [.query, .setMask [false, true], .query, .rejuvenate, .query]).2 =
     [some (truth [fin 1, fin 2]), none, some (truth [fin 1, fin 2]), none, some (truth [fin 2])] := by
+  decide +kernel
+
+/-! ## mapped basins -/
+
+/-- **C20, mapped basins.** The summaries of a feature served by a mapped basin are the
+NaN-ignoring folds over `origin[map]` — every repetition counts, every omitted basin event is
+left out — and a hierarchy child on top of the mapped dataset sees the boolean selection of
+exactly these values.  (The stored summaries of the basin file play no role.) -/
+theorem mapped_summaries_fold_over_gather (s : SDs) (m : List Nat) (mask : List Bool) :
+    proxyReport { origin := s, map := m, cache := none } = truth (gather s.data m) ∧
+    proxyChildReport { origin := s, map := m, cache := none } mask =
+      truth (sel mask (gather s.data m)) := ⟨rfl, rfl⟩
+
+/-- the lazily filled cache of the proxy (`_cache`) never changes an answer -/
+theorem mapped_cache_transparent (p : Proxy) (hc : p.cache = none ∨ p.cache = some (gather p.origin.data p.map)) :
+    proxyReport (proxyArray p).1 = proxyReport p ∧ proxyReport p = truth (gather p.origin.data p.map) := by
+  rcases hc with h | h <;> simp [proxyReport, proxyArray, h]
+
+/-- the folds over the mapped values distribute over any split of the mapping array (the mapped
+values may be evaluated piecewise, e.g. chunk by chunk, for remote basins) -/
+theorem mapped_any_split (o : List Val) (m1 m2 : List Nat) :
+    nanmin (gather o (m1 ++ m2)) = vmin (nanmin (gather o m1)) (nanmin (gather o m2)) ∧
+    nanmax (gather o (m1 ++ m2)) = vmax (nanmax (gather o m1)) (nanmax (gather o m2)) ∧
+    nansum (gather o (m1 ++ m2)) = vadd (nansum (gather o m1)) (nansum (gather o m2)) ∧
+    nancount (gather o (m1 ++ m2)) = nancount (gather o m1) + nancount (gather o m2) := by
+  rw [gather_append]
+  exact ⟨nanmin_append _ _, nanmax_append _ _, nansum_append _ _, nancount_append _ _⟩
+
+/-- handing out the basin feature's own (absent-or-true) summaries is right when the mapping is a
+**permutation** of the basin's events … -/
+theorem mapped_permutation_shortcut_sound (s : SDs) (hg : Good s) (m : List Nat)
+    (hp : m.Perm (List.range s.data.length)) :
+    proxyReportShortcut { origin := s, map := m, cache := none } =
+      proxyReport { origin := s, map := m, cache := none } := by
+  have hl : m.length = s.data.length := by simpa using hp.length_eq
+  simp only [proxyReportShortcut, hl, if_true]
+  rw [report_of_good s hg]
+  exact (truth_perm (gather_perm s.data m hp)).symm
+
+/-- … but **equal length does not imply permutation** (seeded change C20-10): basin `[1, 5, 9, 2]`
+with true stored summaries, mapping `[1, 1, 3, 3]` of the same length: the mapped feature has
+min 2, max 5, mean 7/2; the shortcut reports 1, 9, 17/4 -/
+theorem mapped_same_length_witness :
+    let s : SDs := { data := [fin 1, fin 5, fin 9, fin 2], mn := some (fin 1), mx := some (fin 9),
+                     mean := some (fin (17 / 4)) }
+    let p : Proxy := { origin := s, map := [1, 1, 3, 3], cache := none }
+    (s.mn = some (nanmin s.data) ∧ s.mx = some (nanmax s.data) ∧ s.mean = some (nanmean s.data)) ∧
+    p.map.length = s.data.length ∧ mapOk s.data.length p.map = true ∧
+    proxyReport p = { mn := fin 2, mx := fin 5, mean := fin (7 / 2) } ∧
+    proxyReportShortcut p = { mn := fin 1, mx := fin 9, mean := fin (17 / 4) } := by
+  decide +kernel
+
+/-- repetitions matter even when nothing is omitted: the mean is weighted by the multiplicities -/
+theorem mapped_repetition_witness :
+    truth (gather [fin 1, fin 3] [0, 0, 1]) = { mn := fin 1, mx := fin 3, mean := fin (5 / 3) } ∧
+    truth [fin 1, fin 3] = { mn := fin 1, mx := fin 3, mean := fin 2 } := by
+  decide +kernel
+
+
+/-- omissions matter for every mapping, whatever its length: if basin event `j` is not referenced,
+the basin feature "1 at `j`, 0 elsewhere" has maximum 1 and the mapped feature maximum 0 — a
+shortcut through the basin's summaries can only be sound for mappings that reference every event -/
+theorem mapped_omission_matters (n j : Nat) (m : List Nat) (hj : j < n) (hm : mapOk n m = true)
+    (hne : m ≠ []) (hom : j ∉ m) :
+    nanmax (gather (indicator n j) m) = fin 0 ∧ nanmax (indicator n j) = fin 1 :=
+  omitted_index_changes_max n j m hj hm hne hom
+
+/-- **the shortcut of seeded change C20-10, settled.** For a mapping with valid indices that is as
+long as the (non-empty) basin: handing out the basin feature's own summaries is right for EVERY
+basin feature with absent-or-true stored summaries **iff** the mapping is a permutation of the
+basin's events.  (Pigeonhole: same length and not a permutation ⇒ some event is omitted ⇒ the
+indicator feature of that event refutes the shortcut.) -/
+theorem mapped_same_length_shortcut_sound_iff_perm (n : Nat) (m : List Nat) (hn : 0 < n)
+    (hl : m.length = n) (hm : mapOk n m = true) :
+    (∀ s : SDs, s.data.length = n → Good s →
+        proxyReportShortcut { origin := s, map := m, cache := none } =
+          proxyReport { origin := s, map := m, cache := none })
+      ↔ m.Perm (List.range n) := by
+  constructor
+  · intro h
+    rcases same_length_perm_or_omits n m hl with hp | ⟨j, hj, hom⟩
+    · exact hp
+    · exfalso
+      have hne : m ≠ [] := by
+        intro h0
+        rw [h0] at hl
+        simp at hl
+        omega
+      obtain ⟨h0, h1⟩ := omitted_index_changes_max n j m hj hm hne hom
+      have hlen : (indicator n j).length = n := by simp [indicator]
+      have := h { data := indicator n j, mn := none, mx := none, mean := none } hlen
+        ⟨Or.inl rfl, Or.inl rfl, Or.inl rfl⟩
+      have hmx := congrArg Summ.mx this
+      simp only [proxyReportShortcut, hl, hlen, if_true, report, Option.getD_none, proxyReport,
+        proxyArray, truth] at hmx
+      rw [h0, h1] at hmx
+      cases hmx
+  · intro hp s hs hg
+    exact mapped_permutation_shortcut_sound s hg m (hs ▸ hp)
+
+
+/-! ## foreign datasets without stored summaries -/
+
+/-- the first append to a dataset that carries **no** summary attribute computes all three from the
+whole dataset (old events included), not from the appended batch -/
+theorem first_append_to_attributeless (d c : List Val) :
+    writeScalar .fixed (some { data := d, mn := none, mx := none, mean := none }) c =
+      { data := d ++ c, mn := some (nanmin (d ++ c)), mx := some (nanmax (d ++ c)),
+        mean := some (nanmean (d ++ c)) } := rfl
+
+/-- **C20, appending to foreign files.** Start from a dataset made by other software whose
+summaries are absent (all of them, or any subset — the present ones being true), append in any
+number of calls: all three summaries are stored and equal those of old ++ new events. -/
+theorem append_to_attributeless (s0 : SDs) (hg : Good s0) (chunks : List (List Val))
+    (last : List Val) (hne : last ≠ []) (s : SDs)
+    (h : build .fixed (.append (.foreign s0) (chunks ++ [last])) = some s) :
+    s.data = s0.data ++ (chunks ++ [last]).flatten ∧
+    s.mn = some (nanmin s.data) ∧ s.mx = some (nanmax s.data) ∧ s.mean = some (nanmean s.data) ∧
+    report s = truth (s0.data ++ (chunks ++ [last]).flatten) := by
+  obtain ⟨⟨h1, h2, h3⟩, hd⟩ := appends_exact_from s0 hg chunks last hne s h
+  refine ⟨hd, h1, h2, h3, ?_⟩
+  rw [← hd]
+  exact report_of_good s ⟨Or.inr h1, Or.inr h2, Or.inr h3⟩
+
+/-- treating an absent attribute like "no value yet" (update from the appended batch only — the
+seeded changes C20-6 / C20-8 branched on `offset == 0` instead of on the attribute) is wrong:
+old data `[1]` without attributes, batch `[3]`: the minimum is 1, not 3 -/
+theorem absent_attribute_is_not_identity_witness :
+    (writeScalar .fixed (some { data := [fin 1], mn := none, mx := none, mean := none })
+      [fin 3]).mn = some (fin 1) ∧ vmin nan (nanmin [fin 3]) = fin 3 := by
+  decide +kernel
+
+/-! ## hierarchy children at any depth (on top of the C04 model) -/
+open DclabModel.SummaryView in
+/-- **C20 on C04.** After any history of filter edits and partial refreshes followed by a refresh
+of the youngest member (`Hier.run … (h ++ [rejuv])`, repaired code), the array a scalar feature's
+`ChildScalar` holds at the youngest member — the root's values at the member's events `c.ev`
+(the identity feature of the C04 model) — is the nested boolean selection through the `filter.all`
+arrays of all ancestors, and its summaries are the NaN-ignoring folds over exactly these values. -/
+theorem child_summary_any_depth (D : Hier.Data) (d : Nat) (h : List Hier.Op) (root : List Val)
+    (hn : root.length = D.n) (c : Hier.Level) (anc : List Hier.Level)
+    (hs : Hier.run true true D (Hier.initChain true true D d) (h ++ [Hier.Op.rejuv]) = c :: anc) :
+    gather root c.ev = levelVals root (anc.map (·.all)) ∧
+    truth (gather root c.ev) = childReport root (anc.map (·.all)) := by
+  have hsync := C04.synced_after_rejuvenate D d h
+  rw [hs] at hsync
+  obtain ⟨hev, _⟩ := Hier.synced_ids anc c hsync
+  have : gather root c.ev = levelVals root (anc.map (·.all)) := by
+    rw [levelVals_eq_gather, hn, hev]
+  exact ⟨this, by rw [this]; rfl⟩
+
+open DclabModel.SummaryView in
+/-- the view at any depth is an index selection of the root: `levelVals = root[idsOf …]` (C04's
+`idsOf`), for every chain of masks -/
+theorem child_values_are_root_at_view (root : List Val) (alls : List (List Bool)) :
+    levelVals root alls = gather root (Hier.idsOf root.length alls) :=
+  levelVals_eq_gather root alls
+
+open DclabModel.SummaryView in
+/-- the one-level `Child` model above is this view: first query after `rejuvenate` =
+`childOfRoot` of an ndarray parent with the same data -/
+theorem child_model_is_view (c : Child) :
+    (childStep (childStep c .rejuvenate).1 .query).2 = some (childOfRoot (.nd c.parent) c.mask) := by
+  simp only [childStep, Option.getD_none, childOfRoot, RootFeat.data, sel_eq_hier]
+
+open DclabModel.SummaryView in
+/-- **NaN-ignoring for every kind of parent feature object**: the child's answer does not depend
+on whether the parent holds an `H5ScalarEvent` (whatever it has stored) or an ndarray -/
+theorem child_ignores_parent_kind (s : SDs) (pf : List Bool) :
+    childOfRoot (.h5 s) pf = childOfRoot (.nd s.data) pf ∧
+    childOfRoot (.h5 s) pf = truth (Hier.sel pf s.data) := ⟨rfl, rfl⟩
+
+open DclabModel.SummaryView in
+/-- delegating to the parent's feature object when nothing is filtered out is sound for an HDF5
+parent whose stored summaries are absent or true … -/
+theorem delegation_sound_for_h5 (s : SDs) (hg : Good s) (pf : List Bool) (ha : pf.all id = true)
+    (hl : pf.length = s.data.length) :
+    childOfRootDelegating (.h5 s) pf = childOfRoot (.h5 s) pf := by
+  simp only [childOfRootDelegating, ha, if_true, RootFeat.own, childOfRoot, RootFeat.data,
+    sel_all_true pf s.data ha hl]
+  exact report_of_good s hg
+
+open DclabModel.SummaryView in
+/-- … and for an ndarray parent **without NaN** … -/
+theorem delegation_sound_for_ndarray_without_nan (l : List Val) (hn : hasNan l = false)
+    (pf : List Bool) (ha : pf.all id = true) (hl : pf.length = l.length) :
+    childOfRootDelegating (.nd l) pf = childOfRoot (.nd l) pf := by
+  obtain ⟨h1, h2, h3⟩ := pmin_of_no_nan l hn
+  simp only [childOfRootDelegating, ha, if_true, RootFeat.own, childOfRoot, RootFeat.data,
+    sel_all_true pf l ha hl, h1, h2, h3]
+  rfl
+
+open DclabModel.SummaryView in
+/-- … but not for an ndarray parent with a NaN (seeded changes C20-2 / C20-9): `ndarray.min()`
+propagates NaN -/
+theorem delegation_ndarray_nan_witness :
+    childOfRootDelegating (.nd [fin 1, nan]) [true, true] = { mn := nan, mx := nan, mean := nan } ∧
+    childOfRoot (.nd [fin 1, nan]) [true, true] = { mn := fin 1, mx := fin 1, mean := fin 1 } := by
+  decide +kernel
+
+open DclabModel.SummaryView in
+/-- **the per-level caches are transparent.** After a refresh of the youngest member (all cached
+feature objects dropped), whatever the order and the depths of the queries — a query at one member
+loads and keeps the arrays of all its ancestors' feature objects — every member reports the
+summaries of its own nested view -/
+theorem chain_queries_any_order (root : List Val) (masks : List (List Bool)) (ks : List Nat) :
+    (queries root (chainRefresh masks) ks).2.map truth =
+      ks.map (fun k => childReport root (masks.drop k)) := by
+  rw [queries_spec root ks _ (consistent_refresh root masks)]
+  simp [chainRefresh, masksOf, List.map_map, Function.comp_def, childReport]
+
+open DclabModel.SummaryView in
+/-- the same from any consistent state (some arrays loaded, some not): a query never leaves a
+member with an array that is not its view -/
+theorem chain_query_keeps_consistency (root : List Val) (k : Nat) (ms : List Member)
+    (h : Consistent root ms) :
+    (queryAt root k ms).2 = levelVals root (masksOf (ms.drop k)) ∧
+    Consistent root (queryAt root k ms).1 :=
+  ⟨(queryAt_spec root k ms h).1, (queryAt_spec root k ms h).2.2⟩
+
+/-- non-vacuity: grandchild first (loads the child's array too), then the child, then again -/
+example : (SummaryView.queries [fin 4, nan, fin 1, fin 9]
+    (SummaryView.chainRefresh [[true, false, true], [true, true, false, true]]) [0, 1, 0]).2 =
+    [[fin 4, fin 9], [fin 4, nan, fin 9], [fin 4, fin 9]] := by
+  decide +kernel
+
+/-- non-vacuity of `child_summary_any_depth`: depth 2 -/
+example : SummaryView.childReport [fin 4, nan, fin 1, fin 9] [[true, false, true], [true, true, false, true]]
+    = { mn := fin 4, mx := fin 9, mean := fin (13 / 2) } := by
   decide +kernel
 
 /-- non-vacuity: a history with an all-NaN first call, ±inf, replace, strip, copy and export -/
